@@ -53,7 +53,10 @@ def _tbl(repo, ci, fn_src, atoms, level=4, keep=None):
 def _ct(t):
     pass
     from ..canon import _SymOrder
-    return pn(_SymOrder().visit(ast.parse(t, mode="eval").body))
+    try:
+        return pn(_SymOrder().visit(ast.parse(t, mode="eval").body))
+    except SyntaxError:
+        return pn(t)          # not an expression (e.g. a nested def substituted for its name): compared as text, equal to no expected expression
 
 
 def _r1(chk, repo):
@@ -388,10 +391,22 @@ def _r4(chk, repo):
     v = canon_fn(repo, lp, fn, 1)
     CALL = f"{solve}({A},{b},**{kw})"
     problems, und = [], []
+    # which result types are split into (solution, info...): exactly tuples (a solver may return its solution as a list or an array)
+    from ..flow import Expander as _Ex
+    _ex = _Ex(v)
+    for t_ in _ex.cfg.tests():
+        core = t_.ast
+        while isinstance(core, ast.UnaryOp) and isinstance(core.op, ast.Not):
+            core = core.operand
+        if isinstance(core, ast.Call) and call_name(core) == "isinstance" and len(core.args) == 2 and _ct(unparse(_ex.expand(core.args[0], t_))) == _ct(CALL):
+            if _ct(unparse(core.args[1])) != "tuple":
+                problems.append(f"results of type `{unparse(core.args[1])}` are split into (solution, info...): a solver returning its solution as a plain list "
+                                f"has the first entry taken as the solution")
     for is_tuple in (True, False):
         kind, res = walk(v, {_ct(f"isinstance({CALL},tuple)"): is_tuple}, pn)
         if kind != "return":
-            und.append((kind, res))
+            if not problems:
+                und.append((kind, res))
             continue
         got = _ct(unparse(res))
         want = _ct(f"({CALL}[0],{CALL}[1:])") if is_tuple else _ct(f"({CALL},None)")
